@@ -602,3 +602,8 @@ package interpreter
 //@ func interpreter.opcodeCodeSeparator
 //@   ensures[C06.codesep_sets] (and (= err nil) (= (. t lastCodeSep) (. t scriptOff)))
 //@   check[C06.codesep_script_code_starts_after] (= (spec.sub_skip t) (+ (. t scriptOff) 1))
+// OP_HASH256 (the one hash opcode computed by a modelled function, crypto.Sha256d)
+//@ func interpreter.opcodeHash256
+//@   bytes token
+//@   opt forall-patterns 1
+//@   ensures[C05.opcodeHash256] (and (= (= err nil) (>= (old (len (. t dstack stk))) 1)) (=> (= err nil) (spec.stack_res_bytes t 1 (bsha256d (old (spec.top_bytes t 0))))))
